@@ -16,7 +16,7 @@
      n_fin / n_created / n_started       ... that returned / were created / had task.start() called *)
 From Coq Require Import List Arith.
 Import ListNotations.
-From BQ Require Import rt.WorkerM rt.WorkerThm rt.WorkerLive.
+From BQ Require Import rt.WorkerM rt.WorkerThm rt.WorkerLive rt.WorkerGnr.
 
 (* ---- D7 (finding) -------------------------------------------------------------------
    The code as it is: a RESULT handled between `box.dest_addr = ...` and `if box.ready` of
@@ -66,6 +66,26 @@ Theorem C07_next_batches_complete : forall (bt : list (nat * val)) n,
   NoDup (map fst bt) -> (forall i v, In (i, v) bt -> i < n) -> n <= length bt ->
   forall i, i < n -> In i (map fst bt).
 Proof. exact next_covers. Qed.
+
+(* ---- next(): jointly complete needs get_new_results to hand out what was deposited --------
+   In rt/WorkerM.v `get_new_results` (read fresh_results, reset it) is ONE atom.  At statement
+   granularity (rt/WorkerGnr.v: deposits before S1 `out = self.fresh_results`, between S1 and S2
+   `self.fresh_results = []`, and after S2) this is justified for the code as it is because `out`
+   aliases the mailbox's list: every schedule returns exactly init++d1++d2 and leaves d3, nothing is
+   lost and order is kept.  It is NOT justified for a copying S1 (`out = list(...)`): a deposit
+   between S1 and S2 is in no batch -- so C07_next_batches_complete's premise `n <= length bt` is then
+   never reached and a counting consumer spins.  The harness drives exactly these schedules on the
+   real classes (main thread parked before each source line of get_new_results). *)
+Theorem C07_get_new_results_split_complete : forall init d1 d2 d3 rs,
+  let s := WorkerGnr.run false (mkSt init NoOut rs) (call d1 d2 d3) in
+  returned s = rs ++ [init ++ d1 ++ d2] /\ cur s = d3 /\
+  concat (returned s) ++ cur s = concat rs ++ init ++ d1 ++ d2 ++ d3.
+Proof. exact gnr_alias_complete. Qed.
+
+Theorem C07_get_new_results_copy_refuted : exists init d1 d2 d3 x,
+  let s := WorkerGnr.run true (mkSt init NoOut []) (call d1 d2 d3) in
+  In x (init ++ d1 ++ d2 ++ d3) /\ ~ In x (concat (returned s) ++ cur s).
+Proof. exact gnr_copy_refuted. Qed.
 
 (* ---- exactly once: no return address ever receives two deposits (in any mailbox, on any
    worker), whatever the delivery order -------------------------------------------------- *)
